@@ -234,7 +234,7 @@ def load_known():
 
 
 ASAN_ENV = dict(
-    ASAN_OPTIONS="detect_leaks=0:abort_on_error=1:max_allocation_size_mb=256:allocator_may_return_null=0:detect_stack_use_after_return=0:handle_abort=0",
+    ASAN_OPTIONS="detect_leaks=0:abort_on_error=1:max_allocation_size_mb=256:allocator_may_return_null=0:detect_stack_use_after_return=0:handle_abort=0:malloc_context_size=8",
     UBSAN_OPTIONS="print_stacktrace=1:halt_on_error=1:abort_on_error=1",
     TSAN_OPTIONS="halt_on_error=1:abort_on_error=1:second_deadlock_stack=1",
 )
